@@ -575,5 +575,48 @@ def r16_11(ctx):
     return r
 
 
+def r16_12(ctx):
+    """'Candidate lines survive an SDP round trip': to_sdp and from_sdp are siblings - every keyword the writer puts behind
+    the fixed fields (`typ`, `tcptype`, `raddr`, `rport`) has to be a keyword the reader looks for, or that part of the
+    candidate is silently lost on the way back (the related address of every reflexive / relayed candidate was).
+    Decided: the keyword literals pushed by IceCandidate::to_sdp are a subset of the literals IceCandidate::from_sdp
+    compares tokens with."""
+    r = RuleResult("R16.12", "K6", "every keyword to_sdp writes is a keyword from_sdp reads")
+    w = ctx.body("transports::ice::IceCandidate::to_sdp")
+    fn = "transports::ice::IceCandidate::from_sdp"
+    fam = [nb for nb in ctx.facts.all_bodies() if nb.name == fn or nb.name.startswith(fn + "::{closure")]
+    r.scope += [w.name, fn]
+
+    def lits(b):
+        out = set()
+        for bi, t, p in b.calls():
+            for a in t["a"]:
+                for x in mir.walk(b.term_operand(a)):
+                    if x[0] == "const" and len(x) > 2 and isinstance(x[2], str):
+                        v = x[2].strip('"')
+                        if v.isalpha() and v.islower() and 2 < len(v) < 12:
+                            out.add(v)
+        for sb in range(len(b.blocks)):
+            if b.blocks[sb]["t"]["k"] == "switch":
+                for x in mir.walk(b.switch_info(sb)[0]):
+                    if x[0] == "const" and len(x) > 2 and isinstance(x[2], str):
+                        v = x[2].strip('"')
+                        if v.isalpha() and v.islower() and 2 < len(v) < 12:
+                            out.add(v)
+        return out
+    written = {k for k in lits(w) if k in ("typ", "tcptype", "raddr", "rport", "generation", "ufrag")}
+    read = set()
+    for nb in fam:
+        read |= lits(nb)
+    r.need("keywords written by to_sdp", len(written), 3)
+    for k in sorted(written):
+        if k in read or k == "typ":
+            r.ok({"keyword": k, "read by": "from_sdp"})
+        else:
+            r.violate(fn, "candidate:keyword:%s" % k, ctx.facts.body(fn).where(0),
+                      "to_sdp writes `%s <value>` but from_sdp never looks for it: that part of a candidate does not survive candidate -> line -> candidate" % k)
+    return r
+
+
 def run(ctx):
-    return [r16_1(ctx), r16_2(ctx), r16_3(ctx), r16_4(ctx), r16_5(ctx), r16_6(ctx), r16_7(ctx), r16_8(ctx), r16_9(ctx), r16_10(ctx), r16_11(ctx)]
+    return [r16_1(ctx), r16_2(ctx), r16_3(ctx), r16_4(ctx), r16_5(ctx), r16_6(ctx), r16_7(ctx), r16_8(ctx), r16_9(ctx), r16_10(ctx), r16_11(ctx), r16_12(ctx)]
